@@ -11,6 +11,8 @@ returns the right answer the first time and a different one on the next call wit
 quantifies over calls (nesting of orders, re-evaluation, reuse of precomputed tapers) breaks.  The rule reads the
 events of every abstract run the property's own rules performed -- it adds no run of its own -- and reports the
 write statement, the function it sits in and the parameter whose storage it reaches."""
+import ast
+
 from .frontend import normalise, loc
 
 # functions whose writes are examined, per property (the functions named by the property's anchors)
@@ -57,7 +59,68 @@ TEXT = ('no in-place write (element / slice store, augmented assignment on an ar
         '(slicing, transpose, reshape, flips, .real, asarray / astype(copy=False) with a matching dtype, conj() of a real array)')
 
 
+CACHES = ('lru_cache', 'cache', 'cached_property', 'memoize', 'memoized', 'Memoize')
+
+
+def _property_modules(pid):
+    """module names of the files the property is anchored in (read from the given properties.jsonl)"""
+    import json
+    import os
+    path = os.path.join(os.path.dirname(os.path.dirname(os.path.abspath(__file__))), 'properties.jsonl')
+    mods = []
+    try:
+        for line in open(path):
+            p = json.loads(line)
+            if p.get('id') == pid:
+                for f in p.get('anchors', {}).get('files', []):
+                    if f.startswith('src/spectrum/') and f.endswith('.py'):
+                        mods.append(os.path.basename(f)[:-3])
+    except (OSError, ValueError):
+        pass
+    return mods
+
+
+def _scalar_only_return(fnode):
+    """every return is a literal / parameter-free constant expression (so caching cannot share a mutable array)"""
+    for n in ast.walk(fnode):
+        if isinstance(n, ast.Return) and n.value is not None:
+            for x in ast.walk(n.value):
+                if isinstance(x, (ast.Call, ast.Name, ast.Subscript, ast.Attribute, ast.ListComp, ast.List)):
+                    return False
+    return True
+
+
+def report_shared_results(prog, rep, pid):
+    """`no-shared-result`: no memoised function in the anchored modules returns an object that every caller shares"""
+    mods = [m for m in _property_modules(pid) if m in prog.modules]
+    if not mods:
+        return
+    rep.rule('no-shared-result', 'no function of the anchored modules is wrapped in a result cache (functools.lru_cache / cache / '
+             'a memoising decorator) unless it returns only literals: a cached array is the same storage for every caller, so one '
+             "caller's in-place use changes what the next request for the same arguments returns")
+    n = 0
+    for m in mods:
+        mod = prog.modules[m]
+        defs = [(None, f) for f in mod.funcs.values()]
+        for cname, cnode in mod.classes.items():
+            defs += [(cname, f) for f in cnode.body if isinstance(f, ast.FunctionDef)]
+        for cname, f in defs:
+            n += 1
+            for d in f.decorator_list:
+                dd = d.func if isinstance(d, ast.Call) else d
+                nm = dd.attr if isinstance(dd, ast.Attribute) else getattr(dd, 'id', '')
+                if nm in CACHES and not _scalar_only_return(f):
+                    rep.violation('no-shared-result', '%s.%s' % (m, (cname + '.' if cname else '') + f.name), '@' + normalise(d),
+                                  'the result is cached and handed out again: a caller that modifies the returned array in place '
+                                  '(w /= w.sum(), w *= x) changes what later calls with the same arguments return',
+                                  'src/spectrum/%s.py:%s' % (m, f.lineno))
+    if not any(o.rule == 'no-shared-result' and o.status == 'VIOLATION' for o in rep.obls):
+        rep.proved('no-shared-result', ','.join(mods), 'function definitions', '%d definitions examined: none returns a cached mutable object' % n)
+    rep.floor('definitions examined for result caching', n, 1)
+
+
 def report(prog, rep, pid, interps):
+    report_shared_results(prog, rep, pid)
     scope = SCOPE.get(pid)
     if not scope:
         return
@@ -71,7 +134,7 @@ def report(prog, rep, pid, interps):
             if q in scope:
                 entered[q] = entered.get(q, 0) + 1
         for e in itp.events:
-            if e[0] == 'store' and e[-1] in scope:
+            if e[0] in ('store', 'store-aug') and e[-1] in scope:
                 stores.setdefault(e[-1], set()).add(normalise(e[1]))
             elif e[0] == 'inplace' and e[3] in scope:
                 bad.setdefault((e[3], normalise(e[1])), (e[1], set()))[1].update(e[2])
